@@ -307,6 +307,23 @@ func c11sFactsSession(c *factsCtx, outdir string) error {
 		})
 	}
 
+	// ---- handleIdle: what follows `err := s.state.Idle(...)` (empty when the function is `return s.state.Idle(...)`) ----
+	idleTail := []string{"unknown"}
+	if fd := c11sFindFunc(sess, "handleIdle"); fd != nil {
+		for i, st := range fd.Body.List {
+			switch x := st.(type) {
+			case *ast.ReturnStmt:
+				if len(x.Results) == 1 && strings.HasPrefix(c.render(x.Results[0]), "s.state.Idle(") {
+					idleTail = []string{}
+				}
+			case *ast.AssignStmt:
+				if len(x.Lhs) == 1 && c.render(x.Lhs[0]) == "err" && len(x.Rhs) == 1 && strings.HasPrefix(c.render(x.Rhs[0]), "s.state.Idle(") {
+					idleTail = c11sSkeleton(c, fd.Body.List[i+1:])
+				}
+			}
+		}
+	}
+
 	// ---- command.Parser.Parse: what each return statement returns --------------------------------
 	var parseReturns []string
 	for _, f := range cmdp {
@@ -367,6 +384,8 @@ func c11sFactsSession(c *factsCtx, outdir string) error {
 	fmt.Fprintf(&b, "def startTLSNilConfigBranch : String := %s\n\n", leanStr(startTLSNil))
 	b.WriteString("/-- `handleIdle`: skeleton of `case res, ok := <-cmdCh:` and of the type switch on the payload -/\n")
 	fmt.Fprintf(&b, "def idleLoopShape : List String := %s\n\n", leanStrList(idleLoop))
+	b.WriteString("/-- `handleIdle`: skeleton of the statements after `err := s.state.Idle(…)`; empty when the function ends with `return s.state.Idle(…)` -/\n")
+	fmt.Fprintf(&b, "def idleTail : List String := %s\n\n", leanStrList(idleTail))
 	b.WriteString("/-- `command.Parser.Parse`: the results of its return statements, in source order -/\n")
 	fmt.Fprintf(&b, "def parseReturns : List String := %s\n\n", leanStrList(parseReturns))
 	b.WriteString("/-- `response.Bad`: skeleton of the constructor -/\n")
